@@ -19,7 +19,7 @@ Module M18 := Falcon.C18.Model.
 Module P18 := Falcon.C18.Proofs.
 
 Definition e2c (e : M18.ev) : cev :=
-  match e with M18.Msg n => CText n | M18.Disc c => CDisc c end.
+  match e with M18.Msg n => CText n false | M18.Disc c => CDisc c false end.
 
 Definition proj_queue (s : M18.st) : list cev := map e2c (M18.queue s).
 Definition proj_hand (s : M18.st) : option cev :=
